@@ -22,7 +22,7 @@ from ..engine.dataflow import branch_facts, cond_facts
 from ..engine.taint import Taint, State
 from ..engine.callgraph import CallGraph
 from ..engine.report import RuleResult, Finding
-from .common import finding, try_context, handler_names, enclosing_map
+from .common import finding, try_context, handler_names, enclosing_map, operand_helper_calls
 
 CODE = re.compile(r'^(?:err:)?([A-Z]{4}[0-9]{4})$')
 FACTORIES = {'error', 'xpath_error', 'wrong_syntax', 'wrong_type', 'wrong_value',
@@ -1205,12 +1205,24 @@ def r03_7(ctx, counts) -> RuleResult:
                     for x in (t.elts if isinstance(t, ast.Tuple) else [t]):
                         if isinstance(x, ast.Name):
                             operands.add(x.id)
+        sites: list[tuple[ast.AST, set[str], str]] = []
         for n in walk_local(f.node):
             if not (isinstance(n, ast.BinOp) and isinstance(n.op, (ast.Div, ast.FloorDiv, ast.Mod))):
                 continue
             rnames = {x.id for x in ast.walk(n.right) if isinstance(x, ast.Name)}
-            if not (rnames & operands):
-                continue
+            if rnames & operands:
+                sites.append((n, rnames & operands, ''))
+        # one level of helper extraction: helper(op1, op2) whose body divides by the parameter
+        # bound to an operand is a division site at the call
+        for call, h, binding in operand_helper_calls(model, f, operands):
+            divs = set()
+            for x in walk_local(h.node):
+                if isinstance(x, ast.BinOp) and isinstance(x.op, (ast.Div, ast.FloorDiv, ast.Mod)):
+                    divs |= {binding[y.id] for y in ast.walk(x.right)
+                             if isinstance(y, ast.Name) and y.id in binding}
+            if divs:
+                sites.append((call, divs, f' (divides inside {h.key})'))
+        for n, divnames, via in sites:
             n_ops += 1
             holder = None
             for nd in cfg.nodes:
@@ -1221,27 +1233,27 @@ def r03_7(ctx, counts) -> RuleResult:
                     break
             if holder is None:
                 raise AnalysisError(f'{f.key}: division not located in the CFG')
-            div = sorted(rnames & operands)[0]
+            div = sorted(divnames)[0]
             nonzero = f'-{div} == 0' in facts[holder.id] or f'+{div}' in facts[holder.id]
             covered: set[str] = set()
             for enc in emap[id(n)]:
                 if isinstance(enc, ast.Try) and any(
                         any(y is n for y in ast.walk(b)) for b in enc.body):
-                    for h in enc.handlers:
-                        for nm in handler_names(model, f.module, h):
+                    for hd in enc.handlers:
+                        for nm in handler_names(model, f.module, hd):
                             base = nm.split('.')[-1]
                             for need, sup in EXC_SUPERS.items():
                                 if base in sup:
                                     covered.add(need)
             ok = nonzero or covered >= set(EXC_SUPERS)
-            res.instances.append(f'{f.key} [{"/".join(sorted(syms))}]: `{stmt_text(n)[:40]}` '
+            res.instances.append(f'{f.key} [{"/".join(sorted(syms))}]: `{stmt_text(n)[:40]}`{via} '
                                  f'divisor-nonzero={nonzero} handlers cover={sorted(covered)}')
             if ok:
                 res.ok()
             else:
                 missing = sorted(set(EXC_SUPERS) - covered)
                 res.fail(finding('R03.7', f, n, f'{stmt_text(n)[:30]} misses {"+".join(missing)}',
-                                 f'`{stmt_text(n)[:50]}` in the {"/".join(sorted(syms))} operator '
+                                 f'`{stmt_text(n)[:50]}`{via} in the {"/".join(sorted(syms))} operator '
                                  f'is not dominated by a divisor != 0 test and no enclosing '
                                  f'handler catches {", ".join(missing)}: a zero decimal divisor '
                                  f'escapes as a bare decimal/arithmetic error'))
